@@ -6,6 +6,7 @@ import Nject.Validate
 import Nject.Helpers
 import Nject.Condense
 import Nject.Reorder
+import Nject.ReorderAlg
 import Nject.PostAct
 /-
   Line-protocol driver: reads the case blocks the Go harness writes, rebuilds the compiled
@@ -313,6 +314,19 @@ def runReorderCheck (a : CaseAcc) : List String :=
   let ok := fun (b : Bool) => if b then "ok" else "bad"
   [s!"m4 {ok (reorderValidB (a.s3.reverse.map item) (a.s4.reverse.map item))} prefix={ok (staticPrefixKeptB (a.s3.reverse.map item2) (a.s4.reverse.map item2))} final={ok (finalLastB (a.s4.reverse.map item2))} reorder={if hasReorder a then 1 else 0} gaveup={fmtTys ((a.s4.filter (·.gaveUp)).map (·.id))}"]
 
+/-- S4: the model of reorder.go on the model's own assembled list -/
+def runReorderModel (a : CaseAcc) : List String :=
+  if a.s4.isEmpty then [] else
+  match editAll a.enodes.reverse with
+  | .error _ => []
+  | .ok order =>
+    let provs := order.filterMap fun n => a.pdescs.find? (·.idx == n.idx)
+    match assemble provs a.invSig a.initSig with
+    | none => []
+    | some asm =>
+      let (fs, gave, fuelOut) := reorderModel stdTyInfo asm.funcs a.initSig.isSome
+      [s!"m4o order={fmtTys (fs.map (·.id))} gaveup={fmtTys gave} fuel={if fuelOut then "FUEL" else "ok"}"]
+
 def runBindModel (a : CaseAcc) : List String :=
   let order4 := if hasReorder a && !a.s4.isEmpty then some (a.s4.reverse.map (·.id)) else none
   let cannot4 := (a.s4.filter (·.gaveUp)).map (·.id)
@@ -370,9 +384,9 @@ def runValidators (a : CaseAcc) : List String :=
 
 /-- run all ops through Exec and Spec; returns output lines -/
 def runCase (a : CaseAcc) : List String :=
-  if !a.bindOk then [s!"case {a.n}", runEdit a] ++ runAssemble a ++ runReorderCheck a ++ runBindModel a ++ ["skip nobind", "end"] else
+  if !a.bindOk then [s!"case {a.n}", runEdit a] ++ runAssemble a ++ runReorderCheck a ++ runReorderModel a ++ runBindModel a ++ ["skip nobind", "end"] else
   match mkCompiled a.vcount a.flines.reverse a.dv a.uv with
-  | none => [s!"case {a.n}", runEdit a] ++ runAssemble a ++ runReorderCheck a ++ runBindModel a ++ ["skip nodump", "end"]
+  | none => [s!"case {a.n}", runEdit a] ++ runAssemble a ++ runReorderCheck a ++ runReorderModel a ++ runBindModel a ++ ["skip nodump", "end"]
   | some c =>
     let b := mkBeh a.scripts
     let wf := match checkWF c with
@@ -394,7 +408,7 @@ def runCase (a : CaseAcc) : List String :=
       (ls ++ evs.map ("s " ++ ·) ++ [s!"s ret {fmtVals res}"], s')) ([], c.specBindState)
     let (fl, fnode) := (buildProg c.run c.fin).flatten
     let prog := if fl.map (·.id) == c.run.map (·.id) && fnode.id == c.fin.id then "prog ok" else "prog fail"
-    [s!"case {a.n}", runEdit a] ++ runAssemble a ++ runReorderCheck a ++ runBindModel a ++ runValidators a ++ [wf, sup, prog] ++ xl ++ sl ++ ["end"]
+    [s!"case {a.n}", runEdit a] ++ runAssemble a ++ runReorderCheck a ++ runReorderModel a ++ runBindModel a ++ runValidators a ++ [wf, sup, prog] ++ xl ++ sl ++ ["end"]
 
 
 /-! ### C20 helper records -/
